@@ -161,14 +161,21 @@ def jobs_for(tier, rnd):
         seed = rnd.randrange(1 << 30)
         r = random.Random(seed)
         mode = k % 4
-        if mode in (0, 1):
+        if mode == 1 and k % 8 == 1:
+            P = dfgen.gen_dataflow(r, nested_p=0.5, homogeneous=True, deep=True)   # one two-level shape per program
+        elif mode in (0, 1):
             P = dfgen.gen_dataflow(r, nested_p=0.0)                      # scalars
         elif mode == 2:
             P = dfgen.gen_dataflow(r, nested_p=0.5, homogeneous=True)    # one shape per program
         else:
             P = dfgen.gen_dataflow(r, nested_p=0.35)                     # scalar <-> nested, different key sets
         jobs.append(dict(prog=P, scheduler=('default', 'legacy')[k % 2], policy=engrun.POLICIES[k % len(engrun.POLICIES)], seed=seed,
-                         label='df%d' % k, evict=bool(k % 3 == 0)))
+                         label='df%d' % k, evict=bool(k % 3 == 0), ids=('rand', 'asc', 'desc')[k % 3]))
+    # fixed shapes (re-publication inside one branch of a fork, every value kind) under both id orders of the sibling rows
+    for nm, P in dfgen.catalogue():
+        for ids in ('asc', 'desc'):
+            for sch in ('default', 'legacy'):
+                jobs.append(dict(prog=P, scheduler=sch, policy='random', seed=3, label=nm, ids=ids))
     return jobs
 
 
@@ -221,15 +228,15 @@ def run(tier, jobs=None):
         'states': max(1, st), 'transitions': max(1, tr), 'traces_validated_against_impl': len(traces), 'evaluations': len(traces),
         'distinct_nontrivial': nontriv,
         'rule': 'generated fork/join programs (3-6 tasks, every multi-inbound task a join: all) with task-level publish / publish-on-error and '
-                'transition-level branch / global publish of 3 branch variables and 1 global variable, scalar and one-level nested values, YAQL / '
+                'transition-level branch / global publish of 3 branch variables and 1 global variable, scalar, one-level and two-level nested values, YAQL / '
                 'Jinja / literal renderings, x0 optionally also a workflow input; both schedulers, 8 schedule policies, cache eviction; clauses '
                 + ', '.join(CLAUSES) + ' judged by TLC (DataFlowObsTrace) on every run; non-trivial = distinct programs in which a join ran and at '
                 'least two tasks published',
         'runs_skipped_join_rearmed': skipped, 'model_runs': models, 'known_findings_hit': verdict.known_hits,
         'samples': [{'yaml': traces[0]['meta']['yaml']}],
     }, time.time() - t0, len(verdict.violations), ec.LEVEL_ASSUME + [
-        'id order of sibling task rows is not controlled by the harness (uuid4): fold-order dependence is explored by the model '
-        '(all permutations) and sampled on the real engine'])
+        'id order of sibling task rows (the order in which the engine folds upstream contexts) is a controlled dimension: creation '
+        'order, reversed creation order, or random (uuid4); the model explores all fold orders'])
     print('C05 %s: %d runs of the real engine judged by TLC (%d non-trivial programs), DataFlow.tla %s, %d violations, known findings %s, %.1fs'
           % (tier, len(traces), nontriv, [(m['config'], m['distinct_states']) for m in models], len(verdict.violations), verdict.known_hits,
              time.time() - t0))
